@@ -51,6 +51,8 @@ type Carrier struct {
 	mu    sync.Mutex
 	Conns []*Conn
 
+	Meta ConnMeta // what the wire monitor may expect of streams of this carrier
+
 	// If set, called instead of Svc to serve an accepted stream (raw peers).
 	RawServe func(c *Conn) error
 }
@@ -127,6 +129,7 @@ func (car *Carrier) open(ctx context.Context, reverse bool) *Conn {
 	car.mu.Lock()
 	c.ID = car.W.nextConnID()
 	car.Conns = append(car.Conns, c)
+	car.W.ConnMeta[c.ID] = car.Meta
 	car.mu.Unlock()
 
 	c.cliCtx, c.cliCancel = context.WithCancel(ctx)
